@@ -2,11 +2,12 @@
    equal the constants and code shapes M-ALLOC (Alloc/AllocModel.v, Codec/InlVec.v) was written against.
    A source edit that changes the inline capacity or growth of the size cache, makes clear() release
    storage, moves the cache out of the thread context, changes the cache-clearing rule, adds a step to
-   log_statement, or makes another codec call libfmt / build a temporary on the caller makes this
-   file stop compiling; the check then searches for a failing input with the runtime harness. *)
+   log_statement, makes another codec call libfmt / build a temporary on the caller, or makes a map
+   codec hand an element to Codec<std::pair<Key, T>> again (any edit of compute_encoded_size / encode
+   of std/Map.h and std/UnorderedMap.h) makes this file stop compiling; the check then searches for a failing input with the runtime harness. *)
 From Coq Require Import String List NArith Bool.
 From QuillGen Require SrcFacts.
-From Quill Require Import Codec.InlVec Alloc.AllocModel.
+From Quill Require Import Codec.InlVec Alloc.AllocModel Alloc.AllocProofs.
 Import ListNotations.
 Local Open Scope string_scope.
 
@@ -121,3 +122,53 @@ Definition expected_log_statement : list string := [
     "RET return true"].
 Lemma src_log_statement_skeleton : SrcFacts.sk_logger_log_statement = expected_log_statement.
 Proof. vm_compute. reflexivity. Qed.
+
+(* ------------------------------------------------------------------ the variant of the map codecs *)
+(* The model flag map_copies (Alloc/AllocModel.v: true = every map element is converted to a temporary
+   std::pair<Key, T>, the pinned behaviour of finding C11-F1; false = the members are encoded in place)
+   that stands for the source tree: tools/srcfacts.py (c11f_facts) sets c11_map_elems_in_place when
+   compute_encoded_size and encode of BOTH map codecs loop `for (auto const& elem : arg)`, call
+   Codec<Key> on elem.first and then Codec<T> on elem.second, and mention no pair. *)
+Definition src_map_copies : bool := negb SrcFacts.c11_map_elems_in_place.
+
+Lemma src_map_elems_in_place : SrcFacts.c11_map_elems_in_place = true.
+Proof. vm_compute. reflexivity. Qed.
+
+Lemma src_map_copies_false : src_map_copies = false.
+Proof. vm_compute. reflexivity. Qed.
+
+(* the four bodies (std/Map.h compute_encoded_size, encode; std/UnorderedMap.h compute_encoded_size, encode),
+   comments stripped and white space normalised, are the ones the repaired variant was written against *)
+Definition expected_map_size_body : string :=
+  "{ size_t total_size{sizeof(size_t)}; if constexpr (std::conjunction_v<std::disjunction<std::is_arithmetic<Key>, std::is_enum<Key>>, std::disjunction<std::is_arithmetic<T>, std::is_enum<T>>>) { total_size += (sizeof(Key) + sizeof(T)) * arg.size(); } else { for (auto const& elem : arg) { total_size += Codec<Key>::compute_encoded_size(conditional_arg_size_cache, elem.first); total_size += Codec<T>::compute_encoded_size(conditional_arg_size_cache, elem.second); } } return total_size; }".
+Definition expected_map_encode_body : string :=
+  "{ Codec<size_t>::encode(buffer, conditional_arg_size_cache, conditional_arg_size_cache_index, arg.size()); for (auto const& elem : arg) { Codec<Key>::encode(buffer, conditional_arg_size_cache, conditional_arg_size_cache_index, elem.first); Codec<T>::encode(buffer, conditional_arg_size_cache, conditional_arg_size_cache_index, elem.second); } }".
+Lemma src_map_codec_bodies :
+  SrcFacts.sk_c11_map_codec_bodies =
+  [expected_map_size_body; expected_map_encode_body; expected_map_size_body; expected_map_encode_body].
+Proof. vm_compute. reflexivity. Qed.
+
+(* the property, modelled part, for the variant the source selects (Properties_C11.C11_steady_no_alloc,
+   C11_steady_no_alloc_capacity): no hypothesis about the maps inside the arguments *)
+Local Open Scope N_scope.
+Lemma steady_no_alloc_code_variant : forall cf s ts vs dyn,
+  reachable src_map_copies cf s -> t_reg s = true ->
+  N.of_nat (stmt_cached ts vs) <= INLINE_CAP ->
+  fits (t_node s) (stmt_total ts vs dyn) = true ->
+  forallb no_excluded ts = true ->
+  allocs (snd (log_step src_map_copies cf s ts vs dyn)) = [] /\
+  res (snd (log_step src_map_copies cf s ts vs dyn)) = LEnqueued.
+Proof. rewrite src_map_copies_false. exact steady_no_alloc_reachable. Qed.
+
+Lemma steady_no_alloc_cap_code_variant : forall cf s ts vs dyn,
+  reachable src_map_copies cf s -> t_reg s = true ->
+  N.of_nat (stmt_cached ts vs) <= iv_cap (t_cache s) ->
+  fits (t_node s) (stmt_total ts vs dyn) = true ->
+  forallb no_excluded ts = true ->
+  allocs (snd (log_step src_map_copies cf s ts vs dyn)) = [] /\
+  res (snd (log_step src_map_copies cf s ts vs dyn)) = LEnqueued /\
+  iv_cap (t_cache (fst (log_step src_map_copies cf s ts vs dyn))) = iv_cap (t_cache s).
+Proof.
+  rewrite src_map_copies_false.
+  exact (fun cf s ts vs dyn Hre Hr => steady_no_alloc_cap cf s ts vs dyn Hr (reachable_wf false cf s Hre)).
+Qed.
